@@ -966,3 +966,160 @@ Proof.
 Qed.
 
 End Exit.
+
+Section Restart.
+Variables period lag : Z.
+Hypothesis Hper : 0 <= period.
+Hypothesis Hlag : 0 <= lag.
+Notation tstepF := (tstep true period).
+Notation stepF := (step true period lag).
+Notation runF := (run true period lag).
+Ltac sg := cbn [cur cend start running mu now gs ths set_cur set_cend set_start set_running set_mu set_now unlock dur_since].
+
+(* ---------- and is restarted on demand ---------- *)
+Lemma upd_at {A} (l : list A) x y r : upd (length l) y (l ++ x :: r) = l ++ y :: r.
+Proof. induction l as [|a l IH]; cbn; [reflexivity|]. rewrite IH. reflexivity. Qed.
+
+Lemma step_at G l x r :
+  stepF (mkSt G (l ++ x :: r)) (Step (length l)) =
+  match tstepF (length l) G x with
+  | Some (G1, t1, sp) => Some (mkSt G1 (l ++ t1 :: (r ++ sp)))
+  | None => None
+  end.
+Proof.
+  cbn [step gs ths]. rewrite nth_error_app2 by lia. rewrite Nat.sub_diag. cbn [nth_error].
+  destruct (tstepF (length l) G x) as [[[G1 t1] sp]|]; [|reflexivity].
+  rewrite upd_at, <- app_assoc. reflexivity.
+Qed.
+
+Lemma run_cons s a l :
+  runF s (a :: l) = match stepF s a with Some s' => runF s' l | None => None end.
+Proof. reflexivity. Qed.
+
+Lemma clock_restarts l s d s0 :
+  runF init l = Some s ->
+  running (gs s) = false -> mu (gs s) = None -> quiet s = true ->
+  start (gs s) = Some s0 -> 1 <= kd period d ->
+  let n := length (ths s) in
+  let t := now (gs s) in
+  let e := ticks (t - s0) + kd period d in
+  exists s', runF s (Call d :: repeat (Step n) 9) = Some s' /\
+             running (gs s') = true /\ mu (gs s') = None /\ now (gs s') = t /\
+             cur (gs s') = ticks (t - s0) /\ cend (gs s') = e + slop_ticks /\
+             ths s' = ths s ++ [MRet d t e; R0 t].
+Proof.
+  intros Hr Hrun Hmu Hq Hs0 Hk n t e. apply reach_inv in Hr; auto.
+  pose proof (i_up _ _ _ Hr) as Hup. unfold upper in Hup. rewrite Hs0 in Hup.
+  assert (Hce : cend (gs s) <= cur (gs s)).
+  { destruct (i_stop _ _ _ Hr Hrun) as [(j & d' & t0' & e' & Hj)|H]; [|exact H].
+    rewrite quiet_spec in Hq. apply Hq in Hj. discriminate. }
+  destruct s as [G ths0]. cbn [gs ths] in *. subst n t e.
+  set (n := length ths0). set (t := now G) in *. set (k := kd period d) in *.
+  cbn [repeat]. rewrite run_cons. cbn [step gs ths].
+  (* 1: load clockEnd *)
+  rewrite run_cons, step_at. cbn [tstep app].
+  (* 2: load current, compare *)
+  rewrite run_cons, step_at. cbn [tstep app]. fold k.
+  assert (E1 : (cur G + k >? cend G) = true) by lia. rewrite E1.
+  (* 3: lock *)
+  rewrite run_cons, step_at. cbn [tstep app]. unfold lock. rewrite Hmu.
+  (* 4: stale-clock test *)
+  rewrite run_cons, step_at. cbn [tstep app]. sg. rewrite Hrun, Hs0. cbn [negb andb].
+  (* 5: refresh *)
+  rewrite run_cons, step_at. cbn [tstep app]. sg. rewrite Hs0. sg. fold k. fold t.
+  (* 6: start already set *)
+  rewrite run_cons, step_at. cbn [tstep app]. sg. rewrite Hs0.
+  (* 7: extend *)
+  rewrite run_cons, step_at. cbn [tstep app]. sg.
+  assert (E2 : (ticks (t - s0) + k + slop_ticks >? cend G) = true) by (rewrite slop_val; lia). rewrite E2.
+  (* 8: start the clock goroutine *)
+  rewrite run_cons, step_at. cbn [tstep app]. sg. rewrite Hrun.
+  (* 9: unlock *)
+  rewrite run_cons, step_at. cbn [tstep app]. sg.
+  eexists. split; [reflexivity|]. sg. repeat split; reflexivity.
+Qed.
+
+End Restart.
+
+(* ---------- statements parametric in the code variant, and the refutation for the pinned code ---------- *)
+Definition no_early_timeout_stmt (fx : bool) (period lag : Z) : Prop :=
+  forall l s i d t0 e tm,
+    run fx period lag init l = Some s ->
+    nth_error (ths s) i = Some (MTimedOut d t0 e tm) ->
+    0 <= d -> d + period <= max_dur ->
+    t0 + d - early_slack lag <= tm.
+
+Lemma no_early_timeout_fixed period lag :
+  0 <= period -> 0 <= lag -> no_early_timeout_stmt true period lag.
+Proof. intros Hp Hl l s i d t0 e tm. apply no_early_timeout; auto. Qed.
+
+(* schedule building blocks *)
+Definition ms : Z := 1000000.
+Definition rep {A} (n : nat) (l : list A) : list A := concat (repeat l n).
+(* clock goroutine j asleep at R3: the period passes; wake, lock, read time, write, test, unlock+sleep *)
+Definition clock_iter (p : Z) (j : nat) : list act := Tick p :: rep 6 [Step j].
+(* same, but the loop test fails: running = false, unlock, goroutine gone *)
+Definition clock_last_iter (p : Z) (j : nat) : list act := Tick p :: rep 7 [Step j].
+(* a whole makeDeadline call of goroutine i, uninterrupted: number of atomic actions *)
+Definition md_steps (fx refresh : bool) : nat :=
+  match fx, refresh with
+  | true, true => 9 | true, false => 8 | false, true => 11 | false, false => 10
+  end%nat.
+
+(* First use: one match with a 500 ms timeout finishes at once; the clock goroutine (goroutine 1)
+   ticks every 100 ms until current > clockEnd (17 iterations), exits; then 1.3 s of silence. *)
+Definition sched_idle (fx : bool) : list act :=
+  Call (500 * ms) :: rep (md_steps fx false) [Step 0%nat] ++ [Finish 0%nat] ++ rep 3 [Step 1%nat]
+  ++ rep 16 (clock_iter (100 * ms) 1) ++ clock_last_iter (100 * ms) 1 ++ [Tick (1300 * ms)].
+
+(* Two matches A (goroutine 2) and B (goroutine 3), both with a 500 ms timeout, start at the same
+   instant t = 3.0 s after that idle period.  A performs its two atomic loads, B then runs
+   makeDeadline to completion (refreshes current, extends and starts the clock, goroutine 4),
+   then A continues.  100 ms later the clock ticks once and A polls. *)
+Definition sched_race (fx : bool) : list act :=
+  sched_idle fx ++ [Call (500 * ms); Call (500 * ms); Step 2%nat; Step 2%nat]
+  ++ rep (md_steps fx true) [Step 3%nat]
+  ++ rep (if fx then 6 else 8) [Step 2%nat]
+  ++ rep 3 [Step 4%nat] ++ [Tick (100 * ms)] ++ rep 4 [Step 4%nat] ++ [Step 2%nat].
+
+Definition final (fx : bool) (period lag : Z) (l : list act) : st :=
+  match run fx period lag init l with Some s => s | None => init end.
+
+(* pinned code: A's deadline was computed from the stale current (2193 ticks = 2.3 s) although the
+   call happened at 3.0 s, so the first tick of the restarted clock reports a timeout after 100 ms
+   of a 500 ms budget; every goroutine was lag-timely (lag = 1 ms). *)
+Lemma race_orig_run :
+  run false (100 * ms) (1 * ms) init (sched_race false) = Some (final false (100 * ms) (1 * ms) (sched_race false)).
+Proof. vm_compute. reflexivity. Qed.
+
+Lemma race_orig_timed_out :
+  nth_error (ths (final false (100 * ms) (1 * ms) (sched_race false))) 2
+  = Some (MTimedOut (500 * ms) (3000 * ms) 2193 (3100 * ms)).
+Proof. vm_compute. reflexivity. Qed.
+
+Lemma no_early_timeout_orig_refuted : ~ no_early_timeout_stmt false (100 * ms) (1 * ms).
+Proof.
+  intros H.
+  specialize (H _ _ _ _ _ _ _ race_orig_run race_orig_timed_out).
+  specialize (H ltac:(vm_compute; discriminate) ltac:(vm_compute; discriminate)).
+  vm_compute in H. apply H. reflexivity.
+Qed.
+
+(* further concrete schedules used as non-vacuity witnesses in Properties/C14.v *)
+(* one catastrophic match with a 500 ms timeout polls after every clock tick *)
+Definition sched_fires : list act :=
+  Call (500 * ms) :: rep 8 [Step 0%nat] ++ rep 3 [Step 1%nat]
+  ++ rep 6 (clock_iter (100 * ms) 1 ++ [Step 0%nat]).
+(* StopTimeoutClock (goroutine 2) while that match is pending: the clock exits, nothing fires *)
+Definition sched_stop_pending : list act :=
+  Call (500 * ms) :: rep 8 [Step 0%nat] ++ rep 3 [Step 1%nat]
+  ++ [CallStop; Step 2%nat; Step 2%nat; Step 2%nat]
+  ++ clock_last_iter (100 * ms) 1 ++ rep 3 [Step 2%nat] ++ [Tick (2000 * ms); Step 0%nat].
+(* MatchTimeout = MaxInt64 - 1: d + clockPeriod wraps around in int64 *)
+Definition sched_overflow : list act :=
+  Call (max_dur - 1) :: rep 3 [Step 0%nat].
+(* prefix of sched_idle up to the end of the first match, and the quiet remainder *)
+Definition sched_idle_head : list act :=
+  Call (500 * ms) :: rep 8 [Step 0%nat] ++ [Finish 0%nat].
+Definition sched_idle_tail : list act :=
+  rep 3 [Step 1%nat] ++ rep 16 (clock_iter (100 * ms) 1) ++ clock_last_iter (100 * ms) 1 ++ [Tick (1300 * ms)].
